@@ -172,22 +172,27 @@ def parse(pattern: str):
     return ast.parse(pattern, mode="eval").body
 
 
-def facts(cfg, node, within=None) -> set:
+def facts(cfg, node, within=None, fn=None) -> set:
     """Signed atoms known at node: canon of every dominating branch condition (only the tests written inside the
-    statement `within`, e.g. a loop, when given)."""
+    statement `within`, e.g. a loop, when given).  With fn, once-assigned locals in a test are replaced by their
+    definitions first (`running = t is not None and t.is_alive()` ... `if not running:`)."""
     out = set()
     inside = {id(x) for x in ast.walk(within)} if within is not None else None
     for t, v in cfg.dominating_conditions(node):
         if inside is not None and id(t) not in inside:
             continue
+        if fn is not None:
+            from . import rules
+
+            t = rules.expand_ast(fn, t)
         out |= canon(t, v)
     return out
 
 
-def holds(cfg, node, pattern, truth: bool = True, within=None) -> bool:
+def holds(cfg, node, pattern, truth: bool = True, within=None, fn=None) -> bool:
     """Does `pattern` (source text or expression) have the given truth at node on every path?"""
     want = canon(parse(pattern) if isinstance(pattern, str) else pattern, truth)
-    return want <= facts(cfg, node, within)
+    return want <= facts(cfg, node, within, fn)
 
 
 def show(fs) -> str:
